@@ -26,6 +26,92 @@ from .c02 import has, is_call, find, sub, closure_ret
 SER = "passkey_types::utils::serde::"
 
 
+def expand_calls(S, p, term, depth=0):
+    """replace workspace call terms whose callee has a single outcome by that outcome's value (helpers looked through)"""
+    if depth > 4:
+        return term
+    for c in summary.find_calls(term, p):
+        cb = S.callee_body(c)
+        if cb is None:
+            continue
+        outs = S.outcomes(cb)
+        if len(outs) != 1:
+            continue
+        v = flow.simplify_term(summary.subst(outs[0].value, c[2], None))
+        term = summary.replace(term, c, expand_calls(S, p, v, depth + 1))
+    return flow.simplify_term(term)
+
+
+def consts_of(t):
+    return {x[1] for x in sub(t) if isinstance(x, tuple) and len(x) == 2 and x[0] == "const" and isinstance(x[1], str)}
+
+
+def decode_attempt(d):
+    """classify one `Encoding::decode(enc, data)` term -> (alphabet, unpadded-encoding?, strips-all-trailing-padding?)"""
+    enc, data = d[2][0], d[2][1]
+    cs = {c.rsplit("::", 1)[-1] for c in consts_of(enc) if "data_encoding::BASE64" in c}
+    alph = "url" if cs and all(c.startswith("BASE64URL") for c in cs) else ("std" if cs and not any(c.startswith("BASE64URL") for c in cs) else "mixed")
+    spec = find(enc, lambda y: isinstance(y, tuple) and y and y[0] == "agg" and str(y[1]).endswith("Specification"))
+    if spec is not None:
+        pad = dict(spec[3]).get("padding")
+        nopad = pad is not None and pad[0] == "agg" and pad[2] == "None"
+    else:
+        nopad = bool(cs) and all(c.endswith("_NOPAD") for c in cs)
+    trim = find(data, lambda y: is_call(y, "str::trim_end_matches") or is_call(y, "str::trim_matches"))
+    strips = False
+    if trim is not None:
+        pat = trim[2][1]
+        # the pattern is the alphabet's own padding character ('=' or `specification().padding`)
+        strips = pat == ("const", 61) or pat == ("const", "=") or has(pat, lambda y: isinstance(y, tuple) and len(y) == 3 and y[0] == "field" and y[2] == "padding") \
+            or any(str(c) in ("'='", "=") for c in consts_of(pat))
+    return alph, nopad, strips
+
+
+def bytes_string_rules(chk, p, S, tf):
+    """the string presentations of a binary member: base64url is tried before base64, both with or without padding.
+    Stated over the value term of TryFrom<&str> for Bytes with every workspace helper looked through."""
+    R = "R1 lenient members"
+    outs = S.outcomes(tf)
+    is_dec = lambda y: is_call(y, "Encoding::decode")
+    attempts = []   # (decode term, guarded-by-url-failure?)
+    for o in outs:
+        val = expand_calls(S, p, o.value)
+        cond_terms = [expand_calls(S, p, t) for t, l, f, w in o.conds]
+
+        def walk(t, guarded):
+            if is_call(t, "Option::or_else") or is_call(t, "Option::or") or is_call(t, "Result::or_else") or is_call(t, "Result::or"):
+                first, second = t[2][0], t[2][1]
+                walk(first, guarded)
+                if isinstance(second, tuple) and second and second[0] == "closure":
+                    r = closure_ret(p, second)
+                    second = expand_calls(S, p, r) if r is not None else second
+                g2 = guarded or any(decode_attempt(d)[0] == "url" for d in sub(first) if is_dec(d))
+                walk(second, g2)
+                return
+            if is_dec(t):
+                attempts.append((t, guarded))
+            if isinstance(t, tuple):
+                for x in t:
+                    if isinstance(x, (tuple, frozenset)):
+                        walk(x, guarded)
+            elif isinstance(t, frozenset):
+                for x in t:
+                    walk(x, guarded)
+        g0 = any(decode_attempt(d)[0] == "url" for ct in cond_terms for d in sub(ct) if is_dec(d))
+        walk(val, g0)
+    cls = [(decode_attempt(d), g) for d, g in attempts]
+    url = [c for c, g in cls if c[0] == "url"]
+    std = [(c, g) for c, g in cls if c[0] == "std"]
+    ok = bool(url) and bool(std) and all(g for c, g in std) and not any(c[0] == "mixed" for c, g in cls)
+    chk.ob(R, "R1|Bytes|base64url-then-base64", ok, where(tf),
+           "decode attempts reached from TryFrom<&str> for Bytes: %s; every base64 attempt is used only where the base64url attempt gave nothing: %s"
+           % ([("%s%s" % (c[0], "" if not g else " (after url failed)")) for c, g in cls], ok))
+    for alph, lst in (("base64url", url), ("base64", [c for c, g in std])):
+        ok = bool(lst) and all(c[1] and c[2] for c in lst)
+        chk.ob(R, "R1|Bytes|%s|padding-insensitive" % alph, ok, where(tf),
+               "%s attempt(s): unpadded encoding=%s, all trailing padding characters removed first=%s" % (alph, [c[1] for c in lst], [c[2] for c in lst]))
+
+
 def run(chk):
     p = core.load_program("all")
     chk.configs = ["all-features"]
@@ -138,50 +224,7 @@ def run(chk):
     tf = p.method("passkey_types::utils::bytes::Bytes", "try_from", trait="core::convert::TryFrom")
     if chk.require("R1 lenient members", "R1|Bytes|TryFrom<&str>", tf, "Bytes", "TryFrom<&str> for Bytes not found"):
         chk.touched(tf)
-        o = S.local_outcomes(tf)
-        ok = False
-        wit = ""
-        for x in o:
-            oe = find(x.value, lambda y: is_call(y, "Option::or_else") or is_call(y, "Option::or"))
-            if oe is not None:
-                first = oe[2][0]
-                second = closure_ret(p, oe[2][1]) if oe[2][1][0] == "closure" else oe[2][1]
-                ok = is_call(first, "encoding::try_from_base64url") and second is not None and is_call(second, "encoding::try_from_base64")
-                wit = "%s, then %s" % (flow.term_str(first)[:60], flow.term_str(second)[:60] if second else "?")
-        chk.ob("R1 lenient members", "R1|Bytes|base64url-then-base64", ok, where(tf), "string decoding order: %s" % wit)
-    for nm, alph, nopad in (("try_from_base64url", "BASE64URL", None), ("try_from_base64", "BASE64", "BASE64_NOPAD")):
-        c = [b for b in p.all_bodies if b.path == "passkey_types::utils::encoding::" + nm]
-        if not chk.require("R1 lenient members", "R1|encoding::%s" % nm, len(c) == 1, "passkey_types::utils::encoding", "%s not found" % nm):
-            continue
-        b = c[0]
-        chk.touched(b)
-        from .c01 import body_consts
-        T = flow.Terms(p, b)
-        trims = names.calls_to(b, "str::trim_end_matches")
-        dec = [(bb, t) for bb, t in b.calls() if names.call_is(t, "Encoding::decode")]
-        ok = len(trims) == 1 and len(dec) == 1
-        if ok:
-            arg = flow.simplify_term(T.operand(dec[0][1]["args"][1], dec[0][0], "t"))
-            ok = has(arg, lambda x: is_call(x, "str::trim_end_matches"))
-        cn = set()
-        for bb, blk in enumerate(b.blocks):
-            for st in blk["stmts"]:
-                if st["k"] == "assign":
-                    for o in [st["rv"].get("op")] + list(st["rv"].get("ops", [])):
-                        if isinstance(o, dict) and o["k"] == "const":
-                            cn.add((o.get("uneval") or o.get("s") or "").rsplit("::", 1)[-1])
-            t = blk["term"]
-            if t and t["k"] == "call":
-                for a in t["args"]:
-                    if a["k"] == "const":
-                        cn.add((a.get("uneval") or a.get("s") or "").rsplit("::", 1)[-1])
-        for pb in b.promoted:
-            for bb, st in pb.stmts():
-                if st["k"] == "assign" and isinstance(st["rv"].get("op"), dict) and st["rv"]["op"]["k"] == "const":
-                    cn.add((st["rv"]["op"].get("uneval") or st["rv"]["op"].get("s") or "").rsplit("::", 1)[-1])
-        alphs = {x for x in cn if x.startswith("BASE64")}
-        chk.ob("R1 lenient members", "R1|encoding::%s|padding-insensitive" % nm, ok and alph in alphs and all(x.startswith(alph) for x in alphs), where(b),
-               "trims trailing padding then decodes unpadded; alphabets referenced: %s" % sorted(alphs))
+        bytes_string_rules(chk, p, S, tf)
 
     # ---------------- R2
     n2 = 0
